@@ -34,16 +34,18 @@ func NewDecls() *Decls {
 	d.raw("Float", "(declare-sort Float 0)")
 	d.raw("Opaque", "(declare-sort Opaque 0)")
 	d.raw("Slice", "(declare-datatypes ((Slice 0)) (((mk-slice (sl.base Int) (sl.off Int) (sl.len Int)))))")
+	d.raw("sl.at", "(declare-fun sl.at (Slice Int) Int)")
+	d.axiom("(forall ((s Slice) (i Int)) (! (= (sl.at s i) (+ (sl.off s) i)) :pattern ((sl.at s i))))")
 	d.raw("Iface", "(declare-datatypes ((Iface 0)) (((mk-iface (if.typ Int) (if.val Int)))))")
-	d.raw("str.len", "(declare-fun str.len (Str) Int)")
-	d.raw("str.at", "(declare-fun str.at (Str Int) Int)")
-	d.raw("str.cat", "(declare-fun str.cat (Str Str) Str)")
-	d.raw("str.lt", "(declare-fun str.lt (Str Str) Bool)")
-	d.raw("str.sub", "(declare-fun str.sub (Str Int Int) Str)")
-	d.raw("str.empty", "(declare-const str.empty Str)")
-	d.axiom("(= (str.len str.empty) 0)")
-	d.axiom("(forall ((s Str)) (! (>= (str.len s) 0) :pattern ((str.len s))))")
-	d.axiom("(forall ((s Str)) (! (=> (= (str.len s) 0) (= s str.empty)) :pattern ((str.len s))))")
+	d.raw("gs.len", "(declare-fun gs.len (Str) Int)")
+	d.raw("gs.at", "(declare-fun gs.at (Str Int) Int)")
+	d.raw("gs.cat", "(declare-fun gs.cat (Str Str) Str)")
+	d.raw("gs.lt", "(declare-fun gs.lt (Str Str) Bool)")
+	d.raw("gs.sub", "(declare-fun gs.sub (Str Int Int) Str)")
+	d.raw("gs.empty", "(declare-const gs.empty Str)")
+	d.axiom("(= (gs.len gs.empty) 0)")
+	d.axiom("(forall ((s Str)) (! (>= (gs.len s) 0) :pattern ((gs.len s))))")
+	d.axiom("(forall ((s Str)) (! (=> (= (gs.len s) 0) (= s gs.empty)) :pattern ((gs.len s))))")
 	return d
 }
 
@@ -140,7 +142,7 @@ func shortType(t types.Type) string {
 // StrLit returns the constant for a Go string literal.
 func (d *Decls) StrLit(s string) string {
 	if s == "" {
-		return "str.empty"
+		return "gs.empty"
 	}
 	if c, ok := d.strLits[s]; ok {
 		return c
@@ -149,10 +151,10 @@ func (d *Decls) StrLit(s string) string {
 	q := d.Const(name, "Str")
 	d.strLits[s] = q
 	d.strList = append(d.strList, s)
-	d.axiom(fmt.Sprintf("(= (str.len %s) %d)", q, len(s)))
+	d.axiom(fmt.Sprintf("(= (gs.len %s) %d)", q, len(s)))
 	if len(s) <= 64 {
 		for i := 0; i < len(s); i++ {
-			d.axiom(fmt.Sprintf("(= (str.at %s %d) %d)", q, i, s[i]))
+			d.axiom(fmt.Sprintf("(= (gs.at %s %d) %d)", q, i, s[i]))
 		}
 	}
 	return q
@@ -276,7 +278,7 @@ func (d *Decls) Zero(t types.Type) string {
 		case u.Info()&types.IsInteger != 0:
 			return "0"
 		case u.Info()&types.IsString != 0:
-			return "str.empty"
+			return "gs.empty"
 		case u.Info()&types.IsFloat != 0, u.Info()&types.IsComplex != 0:
 			return d.Const("float.zero", "Float")
 		}
